@@ -138,6 +138,24 @@ SCENARIOS = {
             "valid": ({"h": [("E", "F", "c42")]}, [], "any"),
         },
     ),
+    "announced_length": dict(
+        # computed repetitions across messages, both ways: the length of the remote reply is announced in the fuzzer's request
+        # (the packet parser resolves it against the history: hookin parent, context rules), the length of the fuzzer's answer in
+        # the remote reply (the search resolves it against the received message)
+        body='<start> ::= <F:E:req> <E:F:resp> <F:E:ans>\n<req> ::= "n" <n>\n<n> ::= "1" | "2"\n<resp> ::= "d" <item>{int(<n>)} <k>\n<k> ::= "1" | "2" | "3"\n'
+             '<item> ::= r"[xy]"\n<ans> ::= "a" <z>{int(<k>)}\n<z> ::= "z"\n',
+        msgs={"req": ("F", "E", r"n[12]"), "resp": ("E", "F", r"d[xy]{1,2}[123]"), "ans": ("F", "E", r"az{1,3}")},
+        lang=Seq((Lit("req;"), Lit("resp;"), Lit("ans;"))),
+        seeds=[0, 3],   # seed 0 announces 2, seed 3 announces 1
+        check=lambda vals: (("<resp>" in vals and len(vals["<resp>"]) - 2 != int(vals["<req>"][1:]) and "reply length differs from the announced one")
+                            or ("<ans>" in vals and len(vals["<ans>"]) - 1 != int(vals["<resp>"][-1]) and "answer length differs from the announced one") or None),
+        scripts={
+            "valid": ({"n1": [("E", "F", "dx3")], "n2": [("E", "F", "dxy1")]}, [], "complete"),
+            "valid_same_tail": ({"n1": [("E", "F", "dy2")], "n2": [("E", "F", "dyy2")]}, [], "complete"),
+            "too_few": ({"n1": [("E", "F", "d1")], "n2": [("E", "F", "dx1")]}, [], "error"),
+            "too_many": ({"n1": [("E", "F", "dxy1")], "n2": [("E", "F", "dxyx1")]}, [], "error"),
+        },
+    ),
     "same_type_two_senders": dict(
         # the same message type may come from either of two parties at the same point: only the actual deliverer tells them apart
         body='<start> ::= <F:E:go> (<E:F:pong> | <G:F:pong>) <F:E:fin>\n<go> ::= "go"\n<pong> ::= "po" r"[12]"\n<fin> ::= "."\n',
@@ -277,6 +295,11 @@ def judge(task, ch, sc, expect, trees, out):
                     out["viol"].append(dict(base, kind="transmitted_message_violates_constraint", sent=txt, delivered=delivered.get("E"),
                                             sig="transmitted_message_violates_constraint"))
                     break
+        if sc.get("check"):
+            why = sc["check"]({m.msg.symbol.name(): _val(m.msg) for m in pm})
+            if why:
+                out["viol"].append(dict(base, kind="message_violates_type_or_constraint", message="computed length", why=why,
+                                        history=[(m.msg.symbol.name(), repr(_val(m.msg))) for m in pm], sig="message_violates_type_or_constraint:computed_length"))
         if sc.get("echo"):
             vals = {m.msg.symbol.name(): _val(m.msg) for m in pm}
             if "<ok>" in vals and "<req>" in vals and vals["<ok>"][2:] != vals["<req>"][1:]:
@@ -319,7 +342,7 @@ def _slow_delivery(ch) -> bool:
 
 def explore(ctx: Ctx, bound: int, cap: int) -> dict:
     seeds = [0, 1] if ctx.quick else [0, 1, 2]
-    frontier = [(s, p, [], seed, pol) for s in SCENARIOS for p in SCENARIOS[s]["scripts"] for seed in seeds for pol in ("zero", "trickle")]
+    frontier = [(s, p, [], seed, pol) for s in SCENARIOS for p in SCENARIOS[s]["scripts"] for seed in SCENARIOS[s].get("seeds", seeds) for pol in ("zero", "trickle")]
     agg = {"executions": 0, "horizon": 0, "errors": {}, "capped": 0, "outcomes": set(), "points_default": {}}
     samples = []
     for level in range(bound + 1):
@@ -414,7 +437,7 @@ def free_running(task):
 
 def run(ctx: Ctx) -> None:
     bound = 2 if ctx.quick else 3
-    agg = explore(ctx, bound, cap=2500 if ctx.quick else 60000)
+    agg = explore(ctx, bound, cap=4000 if ctx.quick else 60000)
     free_tasks = [(s, p, seed) for s in SCENARIOS for p, v in SCENARIOS[s]["scripts"].items() if v[2] == "complete" for seed in range(2 if ctx.quick else 6)]
     free = pmap_tagged(free_running, free_tasks, chunk=1)
     # the free-running pass uses real threads and real time: whether a valid peer is fast enough for the run to
